@@ -37,7 +37,11 @@ TwoTwo(c) == [streams |-> <<MkStream(c, <<BlkF(4), Blk(3, FALSE, TRUE, 0)>>, 4),
 Empty(c) == [streams |-> <<MkStream(c, <<>>, 0)>>]
 Rich(c) == [streams |-> <<MkStream(c, <<Blk(5, TRUE, TRUE, 4), Blk(7, FALSE, FALSE, 0)>>, 8), MkStream(c, <<>>, 4), MkStream(c, <<Blk(6, TRUE, TRUE, 0)>>, 0)>>]
 BaseChecks == CASE BaseSet = "supported" -> {1, 4, 10} [] BaseSet = "tiny" -> {1} [] OTHER -> {1, 4, 10, 0, 2}
+(* empty Blocks (no output at all) are valid and carry a Check like any other Block: first and second position *)
+EmptyFirst(c) == [streams |-> <<MkStream(c, <<Blk(2, FALSE, FALSE, 0), Blk(1, FALSE, FALSE, 0)>>, 0)>>]
+EmptySecond(c) == [streams |-> <<MkStream(c, <<Blk(3, FALSE, FALSE, 0), MkBlock(2, CatChunks(2), TRUE, TRUE, <<F("x86", 0), F("lzma2", 1)>>, 0)>>, 0)>>]
 BaseFiles == {OneBlock(c) : c \in BaseChecks} \cup {TwoTwo(c) : c \in BaseChecks} \cup {Empty(c) : c \in {1}}
+             \cup {EmptyFirst(c) : c \in BaseChecks} \cup {EmptySecond(c) : c \in BaseChecks}
              \cup (IF BaseSet = "thorough" THEN {Rich(c) : c \in {1, 4, 10, 0}} ELSE {})
 
 (* ---- effects of a fault ---- *)
@@ -211,8 +215,8 @@ RetDocumented == ret \in {"run", "STREAM_END", "FORMAT_ERROR", "OPTIONS_ERROR", 
 
 (* (G) one line per (file, fault) terminal state: the admissible return codes are collected by the replay *)
 Emit == (ret' # "run") =>
-          PrintT(<<"PLAN", ToJson([base |-> [nstreams |-> Len(orig.streams), check |-> orig.streams[1].check,
-                                             nblocks |-> Len(orig.streams[1].blocks)],   \* identifies the base file within BaseFiles
+          PrintT(<<"PLAN", ToJson([base |-> [check |-> orig.streams[1].check,      \* identifies the base file within BaseFiles
+                                             dids |-> [k \in 1..Len(orig.streams) |-> StreamMeaning(orig.streams[k])]],
                                    fault |-> fault, ret |-> ret', same |-> (out' = OrigMeaning /\ ~partial'),
                                    file |-> IF fault.kind = "none" THEN orig ELSE [streams |-> <<>>],
                                    fields |-> IF fault.kind = "none" THEN Fields(orig) ELSE <<>>])>>)
